@@ -49,7 +49,7 @@ def potential_cases(strength):
         cases += [
             ("fan4", ("DP", 1, {}), "scalar", None, pts),
             ("tet", ("P", 1, {"segments": [2], "include_boundary_dofs": True}), "scalar", 0.5, pts),
-            ("tet", ("B-P", 1, {}), "scalar", None, pts[:2]),
+            ("tet", ("P-bary", 1, {}), "scalar", None, pts[:2]),
             ("tet", ("RWG", 0, {"segments": [1], "include_boundary_dofs": True}), "efield", 1.0, pts[:2]),
             ("fan4", ("RWG", 0, {}), "mfield", 0.5 + 0.5j, pts[:2]),
         ]
